@@ -87,7 +87,9 @@ type event struct {
 	Detail string
 }
 
-func (e event) String() string { return fmt.Sprintf("%s[%s %s x%d %s]", e.Kind, e.Chain, e.Key, e.N, e.Detail) }
+func (e event) String() string {
+	return fmt.Sprintf("%s[%s %s x%d %s]", e.Kind, e.Chain, e.Key, e.N, e.Detail)
+}
 
 func diffEffects(a, b *effState) []event {
 	var out []event
